@@ -493,7 +493,7 @@ _CROSS = {
 }
 _CROSS2 = {
     "C01-b2-4": ["C12", "C13", "C19"], "C11-b2-1": ["C12", "C13", "C19"], "C03-b2-2": ["C04"], "C03-b2-4": ["C05", "C15"],
-    "C14-b2-3": ["C15"], "C04-b2-3": ["C03"], "C06-b2-1": ["C02", "C20"], "C08-b2-2": ["C03"],
+    "C14-b2-3": ["C15"], "C07-b2-3": ["C06", "C13"], "C04-b2-3": ["C03"], "C06-b2-1": ["C02", "C20"], "C08-b2-2": ["C03"],
 }
 for _f in sorted(_glob.glob("/verif/selftest/variants/b2/C*-b2-*.diff")):
     _name = os.path.basename(_f)[:-5]
